@@ -89,11 +89,14 @@ def treeAct (st : TState) (a : SAct) : TState × String :=
     | .refilter id _ => st.fuzzy ++ subtreeIds sys' id
     | .attach id _ _ _ => st.fuzzy ++ [id]
     | .relist => st.fuzzy ++ List.range sys'.nodes.length
+    -- the first list completes inside the burst: whether a change of the same instant reaches a node as an event or is
+    -- already in the content it syncs from when it becomes ready is the schedule's choice
+    | .release => st.fuzzy ++ List.range sys'.nodes.length
     -- the root goes down inside the burst: which of the changes still on their way are delivered before is the schedule's choice
     | .closeRoot => st.fuzzy ++ List.range sys'.nodes.length
     | _ => st.fuzzy
   let hard : Bool := st.inBurst && (st.fuzzyHard || (match a with
-    | .close _ | .refilter _ _ | .relist | .closeRoot => true
+    | .close _ | .refilter _ _ | .relist | .closeRoot | .release => true
     | _ => false))
   let loose := match a with
     | .close id => if st.inBurst then st.loose ++ subtreeIds sys' id else st.loose
@@ -343,6 +346,9 @@ def treeLine (st : TState) (e : SExp) : TState × String :=
     else if phase == "after" && err == "nil" && name != "Close" then
       ({ st with dead := true }, s!"reject C12 {name}() on node {id} succeeded after the root was done")
     else (st, "ok")
+  | .list [.atom "refread", .atom id, .atom verdict, before, after, bad] =>
+    if verdict == "ok" then (st, "ok") else
+      ({ st with dead := true }, s!"reject C15/C07/C06 node {id}: a Cache().List() taken while the node was being refiltered returned {repr bad}, which is neither its content before ({repr before}) nor after ({repr after}): a half-applied Refilter was visible")
   | .list (.atom "attach-error" :: _) => ({ st with dead := true }, "diff attach failed")
   | _ => (st, "bad line")
 
